@@ -43,6 +43,10 @@ def run(ctx):
             d.sensors[k0][r] = sympy.sympify(gen.gen_expr(ctx.rng, d.state + d.calibration, 2, [])) + ctx.rng.choice(d.state)
         process, sensor = eh.make_noises(ctx.rng, d)
         pts = [gen.gen_point(ctx.rng, d) for _ in range(npts)]
+        if transcend:
+            # points well outside (-pi/2, pi/2) in every state: inverse-of-periodic compositions are off their principal branch
+            for val in (F(5, 2), F(-4)):
+                pts.append({"dt": pts[0]["dt"], "cal": pts[0]["cal"], "control": dict(pts[0]["control"]), "state": {n_: val for n_ in pts[0]["state"]}})
         cal = pts[0]["cal"]
         cse = ctx.rng.random() < 0.5
         try:
